@@ -198,7 +198,11 @@ def run(ctx):
 
     # ---------------- (a) store: append histories and lookups, one goroutine
     rc, out, trace = core.harness_pkg(ctx, "explorer_guardiansets", "^TestVerifC19Sets$")
-    rows = [r for r in core.read_jsonl(trace) if r.get("k") == "sets"]
+    allsets = core.read_jsonl(trace)
+    rows = [r for r in allsets if r.get("k") == "sets"]
+    frows = [r for r in allsets if r.get("k") == "sets-fault"]
+    monitor(ctx, frows, "sets-fault")
+    ctx.cov["store_fault_scenarios"] = len(frows)
     if rc != 0 or not rows:
         ctx.problem("correspondence", "go harness C19 (guardiansets)", out[-1500:])
     else:
